@@ -40,7 +40,8 @@ def loop_proofs(res, cfg):
     import build, loopinv
     mods = build.load_modules(cfg, SRCS)
     total = dict(paths=0, queries=0, solver_s=0.0)
-    for fn, kind, w in (("a_u32_sqrt", "isqrt", 32), ("a_u64_sqrt", "isqrt", 64), ("a_u32_gcd", "gcd", 32), ("a_u64_gcd", "gcd", 64)):
+    for fn, kind, w in (("a_u32_sqrt", "isqrt", 32), ("a_u64_sqrt", "isqrt", 64), ("a_u32_gcd", "gcd", 32), ("a_u64_gcd", "gcd", 64),
+                        ("a_u32_lcm", "lcm", 32), ("a_u64_lcm", "lcm", 64)):
         t0 = time.time()
         try:
             obl, summ, ex, hdr = loopinv.run(mods, fn, kind, w)
@@ -64,7 +65,7 @@ def loop_proofs(res, cfg):
                     gv = lambda k: next((v for n, v in model.items() if n.split("!")[0] == k and v is not None), None)
                     if kind == "isqrt" and gv("x") is not None:
                         cands.append((gv("x"),))
-                    if kind == "gcd":
+                    if kind in ("gcd", "lcm"):
                         for pa, pb in (("a", "b"), ("ha", "hb")):
                             if gv(pa) is not None and gv(pb) is not None:
                                 cands.append((gv(pa), gv(pb)))
@@ -77,7 +78,12 @@ def loop_proofs(res, cfg):
                 groups.setdefault("%s/executor-finding/%s" % (fn, f.label), {"n": 1, "bad": [(f.label, f.kind, None)], "dt": 0.0})
         confirmed = None
         for k, args in enumerate(dict.fromkeys(cands)):
-            want = math.isqrt(args[0]) if kind == "isqrt" else math.gcd(*args)
+            if kind == "lcm":
+                want = 0 if 0 in args else args[0] * args[1] // math.gcd(*args)
+                if want >= 2 ** w:
+                    continue            # not representable: nothing is claimed
+            else:
+                want = math.isqrt(args[0]) if kind == "isqrt" else math.gcd(*args)
             try:
                 bad, path, out = native_try(cfg, res, fn, args, want, "%d" % k)
             except MachineryError as e:
@@ -99,7 +105,7 @@ def loop_proofs(res, cfg):
     res.queries += total["queries"]
     res.solver_s += total["solver_s"]
     res.paths += total["paths"]
-    res.functions.update(["a_u32_sqrt / a_u64_sqrt / a_u32_gcd / a_u64_gcd: loop-invariant proof on the clang IR (llsym), obligations over mathematical integers (z3)"])
+    res.functions.update(["a_u32_sqrt / a_u64_sqrt / a_u32_gcd / a_u64_gcd (+ a_u32_lcm / a_u64_lcm against the gcd contract): loop-invariant proof on the clang IR (llsym), obligations over mathematical integers (z3)"])
 
 
 def main():
@@ -153,12 +159,12 @@ def main():
     res.bounds = {"isqrt": "all x < 2^%d (both widths) + %d-wide windows around every 2^k up to the type maximum" % (B, 2 * W + 1),
                   "gcd/lcm": "gcd operands < 2^%d, lcm operands < 2^%d, lcm-vs-gcd-contract products < 2^%d; plus full-width identities with 0, 1, equal operands, and operands shifted to bit positions 16/32/48 (8/16/24 for 32 bit)" % (gb, lb, lpb),
                   "rev/endian": "full width", "unwind": "10 Newton steps / 20 Euclid steps, unwinding assertions on"}
-    res.bounds["loop-invariant proofs"] = ("isqrt (both widths) and gcd (both widths): every input of the full width, any number of iterations - base case (every power-of-two start value, bit-vector domain), "
+    res.bounds["loop-invariant proofs"] = ("isqrt, gcd and lcm (both widths): every input of the full width, any number of iterations - base case (every power-of-two start value, bit-vector domain), "
                                            "one symbolic iteration of the real loop body from an arbitrary state satisfying the invariant, and the exit state; obligations translated from the executor's bit-vector "
                                            "terms to integer arithmetic with the mod-2^w semantics kept and decided by z3 (isqrt: 1 <= x1 <= 2^(w/2) and (x1+1)^2 > x; gcd: the common divisors of (a,b) are those of the arguments, "
                                            "proved as a chain of lemmas with explicit divisibility witnesses)")
     res.outside = ["the CBMC harnesses (bit-precise, with native replay) cover isqrt only for x < 2^%d and windows around powers of two, gcd/lcm only for operands < 2^%d: beyond that the claim rests on the loop-invariant proofs" % (B, gb),
-                   "lcm beyond the stated operand bounds (its body is gcd, one division and one multiplication: decided for bounded operands and against gcd's contract)",
+                   "lcm at full width is decided against gcd's contract (the contract is what the gcd proof establishes): result * gcd = product whenever a*b/gcd is representable",
                    "pre-loop constraints the integer translator cannot express (count-leading-zeros) are dropped from the step/exit obligations - fewer assumptions, so the proofs stand; the base case is decided bit-precisely per start value"]
     res.assumptions = ["CBMC's bit-precise semantics of C (goto-cc build of src/math.c, src/a.c with the generated config header)",
                        "A_U32_BSR/A_U64_BSR resolve to __builtin_clz/__builtin_clzl as in the gcc build (checked: goto-cc defines __GNUC__)"]
